@@ -454,6 +454,17 @@ pub fn check_view(rep: &Report, ck: &str, c: &Case, v: &View) -> CheckResult {
             cj(json!({"field_1": p1, "field_2": p2, "positions": diff})),
         );
     }
+    // (I) range proofs: E_a_2 / E_b_2 recomputed as bare powers of the second parts of the square decompositions
+    // (CL1024 / CL2048 / CL3072 share lm = 256 and le = 258; ln is read off the modulus)
+    rep.eval(ck, 1);
+    if let Some((path, field)) = crate::props::c19::unblinded_range_parts(v, 256, 258, (v.issuer_n.significant_bits() / 512) * 512) {
+        return rep.fail(
+            ck,
+            &format!("range-proof-part-not-blinded:{}:{}:{}", v.kind, generic_path(&path), field),
+            format!("{}: {}/proof_of_tolerance/{} is a bare power g^x: a guessed committed value is confirmed by recomputing it", v.kind, path, field),
+            cj(json!({"range_proof": path, "field": field})),
+        );
+    }
     // (G) a field that is exactly 0 or 1 where the honest prover puts a blinded value: a response whose blinding was
     // skipped for a special value (a hidden attribute equal to 0) confirms that value at sight
     rep.eval(ck, 1);
@@ -710,7 +721,7 @@ pub fn run(ctx: &Ctx, rep: &Report) -> Meta {
     Meta {
         rule: "honest issuance proofs (with and without trusted-party commitment) and signature proofs for EVERY non-empty hidden set (n = 1..3 quick / 1..5 thorough) plus generated cases, high-entropy 256-bit attributes only, issuers with 0..3 more bases than attributes; \
                attacker programs over serde_json::to_value(proof) and the public base pairs {(a_i, b), (g_i, h)}: (A) every (value, randomness)-shaped object tested as an opening of every secret the prover holds, \
-               (B) every integer leaf as value against every integer leaf as randomness, (C) recovery of the signature's v as V * g^(-rho) over all leaf pairs, (D) dictionary attack with the true hidden attribute and a decoy in seed-shuffled order, by opening recomputation, by arithmetic relations (a field equal to or a multiple of the candidate) and by difference quotients (s - s')/(c - c') over all response pairs and all pairs of public challenges (shared blinding inside one proof), two-presentations: two proofs of one credential for the same commitment key generated in sequence on one thread share no field of 64 bits or more and no difference quotient (s - s')/(c - c') of a field over the two challenges equals e, s, v or a hidden attribute; (H) no two fields carry the same value unless both are copies of a commitment the verifier compares (half of the cases with two or more hidden attributes give them all the same value), (G) no field outside the stripped commitment randomness is exactly 0 or 1 (also with hidden attributes forced to 0 / 1: small-attributes), (F, by the witness holder) the blinding part V / M of every group-element field for every message part M in {one attribute, all, hidden, revealed, none} under each base family: two different fields with the same blinding part whose message parts differ in a hidden position, or a blinding part equal to 1; \
+               (B) every integer leaf as value against every integer leaf as randomness, (C) recovery of the signature's v as V * g^(-rho) over all leaf pairs, (D) dictionary attack with the true hidden attribute and a decoy in seed-shuffled order, by opening recomputation, by arithmetic relations (a field equal to or a multiple of the candidate) and by difference quotients (s - s')/(c - c') over all response pairs and all pairs of public challenges (shared blinding inside one proof), two-presentations: two proofs of one credential for the same commitment key generated in sequence on one thread share no field of 64 bits or more and no difference quotient (s - s')/(c - c') of a field over the two challenges equals e, s, v or a hidden attribute; (H) no two fields carry the same value unless both are copies of a commitment the verifier compares (half of the cases with two or more hidden attributes give them all the same value), (I) E_a_2 / E_b_2 of every embedded range proof are not the bare powers g^x of the second parts recomputed by the witness holder, (G) no field outside the stripped commitment randomness is exactly 0 or 1 (also with hidden attributes forced to 0 / 1: small-attributes), (F, by the witness holder) the blinding part V / M of every group-element field for every message part M in {one attribute, all, hidden, revealed, none} under each base family: two different fields with the same blinding part whose message parts differ in a hidden position, or a blinding part equal to 1; \
                oracle: no program succeeds; positive control: the programs find a planted opening; non-trivial = proof with >= 1 hidden attribute; evaluations = attacker-program runs"
             .into(),
         assumptions: vec!["only the direct recomputation attacks named by the property are decided; subtler leaks are not found".into(), "attributes are random 256-bit values, so an accidental equality has probability < 2^-200".into()],
